@@ -56,21 +56,40 @@ Collect(C, tn, sels) ==
   ELSE LET s == Head(sels)
            rest == Collect(C, tn, Tail(sels))
        IN IF ~Included(C, s) THEN rest
-          ELSE CASE s.k = "field" -> <<s>> \o rest
+          ELSE CASE s.k = "field" -> <<s @@ [via |-> 0]>> \o rest
                  [] s.k = "inline" ->
                       (IF s.cond = "" \/ Applies(C.U, s.cond, tn) THEN Collect(C, tn, s.sels) ELSE <<>>) \o rest
                  [] s.k = "spread" ->
                       (IF s.name \in FragNames(C) /\ Applies(C.U, Frag(C, s.name).cond, tn)
-                       THEN Collect(C, tn, Frag(C, s.name).sels) ELSE <<>>) \o rest
+                       THEN LET inner == Collect(C, tn, Frag(C, s.name).sels)
+                            IN [i \in DOMAIN inner |-> [inner[i] EXCEPT !.via = @ + 1]]
+                       ELSE <<>>) \o rest
 
-\* evaluation units: one per response key, sub-selections of equal keys merged
-\* (deviation NoFieldMerge: one per occurrence, a later one overwrites an earlier one)
+\* Selections with the same response key have their sub-selections merged
+\* (GraphQL field merging).  ggql evaluates every occurrence and merges the
+\* results, which is observable only through the resolver call log; for pure
+\* resolvers the data is that of the merged selection.  The model follows ggql
+\* here (one evaluation per occurrence, deep merge of the results) because the
+\* property statements do not bound the number of invocations.
+\* The declarative reading, selected by "DeclarativeMerge" \in C.dv: one evaluation per
+\* response key with the sub-selections of all occurrences concatenated.  TLC checks on every
+\* enumerated case that both readings give the same data (MCExec!OracleMergeEquiv).
 Units(C, fs) ==
-  IF "NoFieldMerge" \in C.dv THEN fs
+  IF "DeclarativeMerge" \notin C.dv THEN fs
   ELSE LET ks == Dedup([i \in DOMAIN fs |-> Key(fs[i])])
        IN [j \in DOMAIN ks |->
              LET same == SelectSeq(fs, LAMBDA f : Key(f) = ks[j])
              IN [same[1] EXCEPT !.sels = Flatten([i \in DOMAIN same |-> same[i].sels])]]
+
+RECURSIVE Merge(_, _)
+Merge(old, new) ==
+  IF old.k = "obj" /\ new.k = "obj"
+  THEN V("obj", [x \in DOMAIN old.v \cup DOMAIN new.v |->
+                   IF x \in DOMAIN old.v /\ x \in DOMAIN new.v THEN Merge(old.v[x], new.v[x])
+                   ELSE IF x \in DOMAIN old.v THEN old.v[x] ELSE new.v[x]])
+  ELSE IF old.k = "list" /\ new.k = "list" /\ Len(old.v) = Len(new.v)
+  THEN ListV([i \in DOMAIN old.v |-> Merge(old.v[i], new.v[i])])
+  ELSE new
 
 -----------------------------------------------------------------------------
 (* arguments *)
@@ -107,12 +126,16 @@ EvalUnits(C, node, units, path, acc) ==
   IF units = <<>> THEN acc
   ELSE LET f == Head(units)
            r == EvalField(C, node, f, path)
-           d == IF r.val.k = "absent" THEN acc.val ELSE Put(acc.val, Key(f), r.val)
+           d == IF r.val.k = "absent" THEN acc.val
+                ELSE IF Key(f) \in DOMAIN acc.val THEN Put(acc.val, Key(f), Merge(acc.val[Key(f)], r.val))
+                ELSE Put(acc.val, Key(f), r.val)
        IN EvalUnits(C, node, Tail(units), path, Res(d, acc.errs \o r.errs, acc.calls \o r.calls))
 
 EvalField(C, node, f, path) ==
   LET tn == C.U.nodeType[node]
-      p == Append(path, PathKey(Key(f)))
+      \* deviation FragPathSegment: ggql inserts one extra path segment per named fragment the
+      \* selection was reached through (canonicalised to "f:" by the harness)
+      p == path \o (IF "FragPathSegment" \in C.dv THEN [i \in 1..f.via |-> "f:"] ELSE <<>>) \o <<PathKey(Key(f))>>
   IN IF f.name = "__typename" THEN Res(StrV(tn), <<>>, <<>>)
      ELSE IF ~HasField(C.U, tn, f.name)
      THEN Res(V("absent", 0), <<ErrRec(p, "undefined_field", f.name)>>, <<>>)       \* C10: rejected, not resolved
@@ -130,6 +153,8 @@ EvalField(C, node, f, path) ==
                       v == IF raw.k = "echo" THEN StrV(EchoStr(fd, am, 1)) ELSE raw
                   IN IF v.k = "err"
                      THEN Res(NullV, <<ErrRec(p, "resolver", v.v)>>, <<call>>)      \* C06
+                     ELSE IF v.k = "errs"                                           \* a group of n errors: one entry each
+                     THEN Res(NullV, [i \in 1..v.v |-> ErrRec(p, "resolver", "group")], <<call>>)
                      ELSE LET r == Complete(C, fd.type, v, f.sels, p)
                           IN Res(r.val, r.errs, <<call>> \o r.calls)
 
@@ -170,9 +195,24 @@ VarVals(op, given) ==
      IN IF n \in DOMAIN given /\ given[n] # NullV THEN given[n]
         ELSE IF vd.hasDef THEN vd.def ELSE NullV]
 
+\* C10: a document that applies an unknown or misplaced directive, gives a directive an unknown or
+\* ill-typed argument, or uses an undefined type condition is refused as a whole.
+RECURSIVE AnyBad(_, _)
+AnyBad(U, sels) ==
+  \E i \in DOMAIN sels :
+     \/ sels[i].bad # ""
+     \/ sels[i].k = "inline" /\ sels[i].cond # "" /\ ~HasType(U, sels[i].cond)
+     \/ sels[i].k # "spread" /\ AnyBad(U, sels[i].sels)
+DocRejected(U, doc, dv) ==
+  \/ \E i \in DOMAIN doc.ops : AnyBad(U, doc.ops[i].sels)
+  \/ \E i \in DOMAIN doc.frags : AnyBad(U, doc.frags[i].sels)
+  \/ "FragDefUndefinedCond" \notin dv /\ \E i \in DOMAIN doc.frags : ~HasType(U, doc.frags[i].cond)
+
 Response(U, doc, opName, given, dv) ==
   LET i == ChooseOp(doc, opName)
-  IN IF i = 0 THEN [hasData |-> FALSE, data |-> NullV, errs |-> <<ErrRec(<<>>, "no_operation", opName)>>, calls |-> <<>>]
+  IN IF DocRejected(U, doc, dv)
+     THEN [hasData |-> FALSE, data |-> NullV, errs |-> <<ErrRec(<<>>, "rejected", "")>>, calls |-> <<>>]
+     ELSE IF i = 0 THEN [hasData |-> FALSE, data |-> NullV, errs |-> <<ErrRec(<<>>, "no_operation", opName)>>, calls |-> <<>>]
      ELSE LET op == doc.ops[i]
               C == [U |-> U, doc |-> doc, vars |-> VarVals(op, given), dv |-> dv]
               r == ExecSels(C, U.roots[op.type], op.sels, <<>>)
